@@ -179,9 +179,10 @@ pub fn profile(prop: &str, tier: &str) -> Profile {
                 (K::Close, 1),
                 (K::DropH, 1),
                 (K::Yield, 2),
+                (K::TrySendRt, 1),
             ]),
             pays: vec![Pay::P1, Pay::P8, Pay::P16, Pay::P40, Pay::PR, Pay::U64, Pay::U128],
-            max_sched: 128,
+            max_sched: 200,
             ..base
         },
         "C08" => Profile {
